@@ -511,6 +511,24 @@ impl RSim {
                     format!("replica contiguous_length {} but model {}", info.contiguous_length, rm.contiguous()),
                 ));
             }
+            if check_contig && touched.is_none() {
+                // C08: has() on every index below the length and probes in the following pages
+                for i in 0..len {
+                    let h = r.has(i);
+                    if h != rm.held.contains(&i) {
+                        return Err(fail_at(step, format!("replica-has-mismatch:{tag}"), format!("replica has({i}) = {h} but model {} (replica length {len})", !h)));
+                    }
+                }
+                let last_page = len / 32768;
+                for p in last_page..last_page + 5 {
+                    for off in [0u64, 1, 8191, 8192, 8193, 32767] {
+                        let i = p * 32768 + off;
+                        if i >= len && r.has(i) {
+                            return Err(fail_at(step, format!("replica-has-beyond-length:{tag}"), format!("replica has({i}) is true but its length is {len}")));
+                        }
+                    }
+                }
+            }
             for i in idx {
                 let held = rm.held.contains(&i);
                 let h = r.has(i);
